@@ -196,3 +196,41 @@ def evaluate_memo(c, r):
     if not r["back_equals_first"]:
         V.append(("stale-after-parameter-change", 1, "changing (E, v) back does not give the first result again"))
     return V
+
+
+def evaluate_units(cb, rb, cs, rs):
+    """Unit invariance: `cs` is `cb` with every stress-like parameter times s = cs["unit_scale"].
+    Required per step: sig_s = s*sig, same p, same active set.  Tolerance: 1e-6 relative, widened by
+    the solvers' ABSOLUTE stop tests when s*sigma_y < 1 (yield row 1e-10*max(sy,1), plane stress
+    1e-8*max(sy,1)): tol = 1e-6 + 1e3 * abs_tol / (s*sy)."""
+    V = []
+    s = cs["unit_scale"]
+    if rb.get("error") or rs.get("error"):
+        if rs.get("error") and not rb.get("error"):
+            V.append(("units-change-outcome", -1, "scaled by %g: %s" % (s, rs["error"][:200])))
+        return V
+    sy = sy_of(cb)
+    sys_ = sy * s
+    abs_tol = (1e-8 if cb["mode"] == "PS" else 1e-10)
+    tol = 1e-6 + (1e3 * abs_tol / sys_ if sys_ < 1 else 0.0) + (1e-5 if cb["mode"] == "PS" else 0.0)
+    for a, b in zip(rb["steps"], rs["steps"]):
+        k = a["k"]
+        if "exception" in a or "exception" in b or not a.get("ok") or not b.get("ok"):
+            if ("exception" in a or not a.get("ok")) != ("exception" in b or not b.get("ok")):
+                # convergence itself must not depend on the units -- reported, but it ends the comparison
+                V.append(("units-change-convergence", k, "converged in base units: %s, scaled by %g: %s" % (bool(a.get("ok")), s, bool(b.get("ok")))))
+            break
+        n6 = max(max(abs(x) for x in a["sig6"]), sy)
+        d = max(abs(x * s - y) for x, y in zip(a["sig6"], b["sig6"])) / s
+        if d > tol * n6:
+            V.append(("not-unit-invariant", k, "stress scaled by %g: |sig_s/s - sig| = %.3e (|sig| = %.3e, sigma_y = %.4g -> %.4g)" % (s, d, n6, sy, sys_)))
+            break
+        if "dp" in a:
+            pe = max(abs(a["p"]), cb["eps_y"])
+            if abs(a["p"] - b["p"]) > 10 * tol * pe:
+                V.append(("not-unit-invariant", k, "accumulated plastic strain: %.6e in base units, %.6e with stresses scaled by %g" % (a["p"], b["p"], s)))
+                break
+            if (a["dp"] > 0) != (b["dp"] > 0) and abs(a["f_trial"]) > 1e-6 * sy:
+                V.append(("not-unit-invariant", k, "active set: dp = %.3e in base units, %.3e with stresses scaled by %g" % (a["dp"], b["dp"], s)))
+                break
+    return V
